@@ -88,7 +88,7 @@ let run path =
       "c15_resend_order", ConnSpec2.c15_resend_order; "c15_dequeue_order", ConnSpec2.c15_dequeue_order;
       "c14_lifecycle", ConnSpec2.c14_lifecycle;
       "c08_popped_is_saved", ConnSpec3.c08_popped_is_saved; "c08_pubrel_after_store", ConnSpec3.c08_pubrel_after_store;
-      "c20_tokens", ConnSpec3.c20_tokens; "c16_slots_not_lost", ConnSpec4.c16_slots_not_lost ] in
+      "c20_tokens", ConnSpec3.c20_tokens; "c16_slots_not_lost", ConnProofsCDefs.c16_slots_not_lost2 ] in
     L.iter (fun (name, f) ->
       if not (f pevs) then begin
         (* shortest failing prefix = position of the offending event *)
